@@ -1,7 +1,6 @@
 package remoting
 
 import (
-	"bufio"
 	"encoding/binary"
 	"errors"
 	"fmt"
@@ -88,7 +87,8 @@ func (c *tcpConnectionActor) onLaunch(ctx vivid.ActorContext) {
 
 func (c *tcpConnectionActor) onReadConn(ctx vivid.ActorContext) (fatal bool, err error) {
 	// 消息读取
-	reader := bufio.NewReader(c.conn)
+	// 直接从连接读取：每帧新建带缓冲的 reader 会把同一次读取中粘在后面的后续帧字节一并读入缓冲并随之丢弃
+	var reader io.Reader = c.conn
 	lengthBuf := make([]byte, 4)
 	if _, err = io.ReadFull(reader, lengthBuf); err != nil {
 		// 对等连接已关闭
